@@ -258,20 +258,13 @@ Proof.
       - rewrite Z.eqb_refl, E. reflexivity.
       - rewrite (eqb_refl _ (finite_nn _ Fe)). reflexivity.
       - rewrite (eqb_refl _ (finite_nn _ Fs)). reflexivity. }
-    destruct (ltb 0 newR) eqn:P; cbn [fst snd];
-      [destruct dmg; cbn [u_state set_last set_hp]; destruct (u_state u) eqn:ES; split_spec;
-       try (apply OK); try (apply Q; reflexivity);
-       try (intros id q Hid; unfold q_evs; cbn [flat_map]; destruct q; cbn [q_ev]; rewrite ?(neqb_other _ _ Hid); reflexivity);
-       try (cbn; rewrite NB; reflexivity); try (cbn; rewrite NR; reflexivity);
-       try (intros; split; reflexivity); try reflexivity
-      | split_spec].
-    + destruct dmg; apply OK.
-    + apply Q; try (destruct dmg; reflexivity). intros q id. destruct q; reflexivity.
-    + intros id q Hid. unfold q_evs. cbn [flat_map]. destruct q; cbn [q_ev]; rewrite ?(neqb_other _ _ Hid); reflexivity.
-    + destruct dmg; cbn; rewrite NB; reflexivity.
-    + destruct dmg; cbn; rewrite NR; reflexivity.
-    + intros; split; reflexivity.
-    + reflexivity.
+    destruct dmg; cbn [u_state set_last set_hp]; destruct (u_state u) eqn:ES;
+      try destruct (ltb 0 newR) eqn:P; cbn [fst snd]; split_spec;
+      try (apply OK); try (apply Q; reflexivity);
+      try (apply Q; try reflexivity; intros q id; destruct q; reflexivity);
+      try (intros id q Hid; unfold q_evs; cbn [flat_map]; destruct q; cbn [q_ev]; rewrite ?(neqb_other _ _ Hid); reflexivity);
+      try (cbn; rewrite NB; reflexivity); try (cbn; rewrite NR; reflexivity);
+      try (intros; split; reflexivity); try reflexivity.
 Qed.
 
 Lemma do_energy_spec c u a :
